@@ -22,4 +22,16 @@ example : ¬ Intact ((octets.take 35) ++ 0x14 :: (octets.drop 36)) :=
       have e : good.data = (octets.take 35) ++ (octets.getD 35 0) :: (octets.drop 36) := by decide +kernel
       rwa [e] at h)
 
+/-- the two-octet form on the same frame: octets 35 and 36 replaced -/
+example : ¬ Intact ((octets.take 35) ++ 0x14 :: 0x77 :: (octets.drop 37)) :=
+  intact_two_adjacent_octets_damage (octets.take 35) (octets.drop 37) (octets.getD 35 0) (octets.getD 36 0)
+    0x14 0x77
+    (by decide +kernel) (by decide +kernel) (by decide +kernel) (by decide +kernel) (by decide +kernel)
+    (by decide +kernel) (by decide +kernel)
+    (by
+      have h := (valid_iff_intact good good_inv).1 (by decide +kernel)
+      have e : good.data = (octets.take 35) ++ (octets.getD 35 0) :: (octets.getD 36 0) :: (octets.drop 37) := by
+        decide +kernel
+      rwa [e] at h)
+
 end Amshan.C01.Witness
